@@ -228,6 +228,7 @@ func (c *c06) guarded(name string, inLen int, f func()) {
 	runtime.ReadMemStats(&before)
 	tapeCap0 := cap(w.T.Rec)
 	steps0 := w.World.Steps
+	savedLimit := w.World.StepLimit
 	w.World.StepLimit = steps0 + uint64(400*inLen) + 20000
 	func() {
 		defer func() {
@@ -235,7 +236,7 @@ func (c *c06) guarded(name string, inLen int, f func()) {
 				if _, ok := r.(*Violation); ok {
 					panic(r)
 				}
-				w.World.StepLimit = 0
+				w.World.StepLimit = savedLimit
 				v := panicToViolation("C06", r)
 				v.Facts = w.opFacts
 				v.Detail = fmt.Sprintf("entry point %s, fault %s\n%s", name, c.fault, v.Detail)
@@ -244,7 +245,7 @@ func (c *c06) guarded(name string, inLen int, f func()) {
 		}()
 		f()
 	}()
-	w.World.StepLimit = 0
+	w.World.StepLimit = savedLimit
 	var after runtime.MemStats
 	runtime.ReadMemStats(&after)
 	alloc := after.TotalAlloc - before.TotalAlloc
